@@ -29,7 +29,7 @@ def run(ctx):
         ctx.cov["traces_validated_against_impl"] += rec["histories"] - 1
     ctx.cov["rule"] = ("A: every (ring, operand pair, operation) of the complete small domains (Z -6..6, Q |n|<=4 d<=4, F2/F3/F5/F7, Z[i], Z[w] coordinates -2..2) "
                        "with TLC's canonical expected value, run on every implementation type of the ring in all six operator forms; "
-                       "B: seeded histories on 16 types (machine ints near their limits inside the representable envelope, BigInt to ~10^300/10^600), each result must be exact and canonical.")
+                       "B: seeded histories on 18 types (machine ints near their limits inside the representable envelope, BigInt to ~10^300/10^600, FF<p> up to p = 2^30 + 3 and 2^31 - 1 with residues on both sides of 2^30), each result must be exact and canonical.")
     ctx.assumptions += ["machine-integer operations are issued only when the exact result and the cross products of a rational operation are representable",
                         "lowest terms of big rationals is certified by a Bezout witness computed by the harness and re-multiplied by TLC"]
     lines = open(trace).read().splitlines()
